@@ -36,8 +36,9 @@ SPEC = {
     # itself says is evaluated on the implementation's output by the oracle (extra()), so a
     # disagreement alone is reported without a failing input
     "disagreement_is_violation": False,
-    "rule": "case = generated text (valid programs 50%, mutated 22%, mixed comment/pragma/string lines 14%, token soup 11%, "
-            "tiny 3%; LF/CRLF/mixed) x generated configuration (FormattingOptions, vendor profile via trust-lsp.toml, all "
+    "rule": "case = generated text (risky 12%: URL-like strings + trailing comments, commented-out assignments and strings with "
+            "`:=`/`=>`/`:` next to real assignments, lines that wrap, runs of 3-6 blank lines; valid programs 38%, mutated 22%, "
+            "mixed comment/pragma/string lines 14%, token soup 11%, tiny 3%; LF/CRLF/mixed) x generated configuration (FormattingOptions, vendor profile via trust-lsp.toml, all "
             "eight client settings through random key aliases) x full + 1-2 ranges + 1-2 on-type positions + second "
             "formatting + web formatter twice; non-trivial = at least 3 non-trivia tokens and 2 lines; distinct = by hash of "
             "the case's operation lines",
@@ -124,12 +125,8 @@ def run_guards(cases_path):
     return guards
 
 
-def extra(ctx):
-    cases = ctx["cases"]
-    tier, seed = ctx["tier"], ctx["seed"]
-    cases_path = os.path.join(vlib.WORK, f"C15.{tier}.cases.txt")
-    guards = run_guards(cases_path)
-    open_findings = {f["id"]: f for f in vlib.known_findings("C15")}
+def classify(cases, guards, open_findings, seed, tier, found_by):
+    """Evaluates the `# oracle` lines of parsed cases: (unexplained failures, hits of open findings, counters)."""
     failures, known_hits, guard_hist = [], {}, {}
     n_oracle = n_fail = 0
     witnessed = set()
@@ -157,7 +154,6 @@ def extra(ctx):
                 g_src = guards.get((c.n, 0), set())
                 g_doc = guards.get((c.n, docs.get(o["doc"], 0)), set())
                 ids = {i for i in explain(o["op"], o["what"], g_src, g_doc) if i in open_findings}
-                unknown = []
                 if ids:
                     for i in ids:
                         known_hits[i] = known_hits.get(i, 0) + 1
@@ -169,12 +165,61 @@ def extra(ctx):
                         "case": c.n, "seed": seed, "tier": tier, "config": cfg,
                         "source": texts.get("source", ""), "document": texts.get(o["doc"], ""),
                         "operation": o["op"], "guards_violated": sorted(g_src | g_doc),
-                        "classified_as": sorted(ids), "not_a_known_finding": "no guard of an open finding is violated",
-                        "replay_cmd": f"./check.py C15 --replay <this file>",
+                        "not_a_known_finding": "no guard of an open finding is violated",
+                        "found_by": found_by, "shrunk": "shrunk" in c.tags,
+                        "replay_cmd": "./check.py C15 --replay <this file>",
                     })
         for g in guards.get((c.n, 0), set()):
             key = g if not g.startswith("glue") else g.split(":")[0]
             guard_hist[key] = guard_hist.get(key, 0) + 1
+    return failures, known_hits, guard_hist, n_oracle, n_fail, witnessed
+
+
+def neighbourhood(ctx, open_findings):
+    """Model and implementation disagree: look for a failing input OF THE PROPERTY near the disagreeing cases.
+    The harness splices the constructs that text-based helpers trip over (strings / comments containing `//`,
+    `:=`, `=>`, `:`; commented-out code; lines that wrap; runs of blank lines) into each disagreeing source, varies
+    the line limit, runs full / range / on-type / second formatting through the real server, judges every variant
+    with the property oracle and shrinks the first failing variants line by line."""
+    tier, seed = ctx["tier"], ctx["seed"]
+    seeds, seen = [], set()
+    for d in ctx["result"]["disagreements"]:
+        cfg = src = None
+        for l in d.get("case_lines", []):
+            if l.startswith("cfg ") and cfg is None:
+                cfg = l
+            elif l.startswith("# doc 0 source "):
+                src = json.loads(l.split(" ", 4)[4])
+        if cfg and src is not None and (cfg, src) not in seen:
+            seen.add((cfg, src))
+            seeds.append({"cfg": cfg, "source": src})
+        if len(seeds) >= 6:
+            break
+    if not seeds:
+        return [], {}
+    npath = os.path.join(vlib.WORK, f"C15.{tier}.neighbour.json")
+    json.dump(seeds, open(npath, "w"))
+    out_path = os.path.join(vlib.WORK, f"C15.{tier}.neighbour.cases.txt")
+    rc, log = vlib.run_harness("c15", seed, 40 if tier == "quick" else 150, out_path, {"neighbour": npath}, timeout=3600)
+    if rc != 0:
+        raise RuntimeError(f"neighbourhood search: harness exited {rc}: {log[-600:]}")
+    ncases = vlib.parse_cases(out_path)
+    failures, _, _, n_oracle, n_fail, _ = classify(ncases, run_guards(out_path), open_findings, seed, tier,
+                                                   "neighbourhood search around a model-vs-implementation disagreement")
+    # shrunk failing inputs first
+    failures.sort(key=lambda f: (not f["shrunk"], len(f["source"])))
+    return failures, {"neighbourhood_seeds": len(seeds), "neighbourhood_variants": len(ncases),
+                      "neighbourhood_oracle_evaluations": n_oracle, "neighbourhood_oracle_failures": n_fail}
+
+
+def extra(ctx):
+    cases = ctx["cases"]
+    tier, seed = ctx["tier"], ctx["seed"]
+    cases_path = os.path.join(vlib.WORK, f"C15.{tier}.cases.txt")
+    guards = run_guards(cases_path)
+    open_findings = {f["id"]: f for f in vlib.known_findings("C15")}
+    failures, known_hits, guard_hist, n_oracle, n_fail, witnessed = classify(
+        cases, guards, open_findings, seed, tier, "generated case")
     known = [f"{open_findings[i]['what']} [{i}; {n} failing operations this run]" for i, n in sorted(known_hits.items())]
     coverage = {
         "oracle_evaluations": n_oracle,
@@ -184,6 +229,11 @@ def extra(ctx):
         "known_findings_reproduced_on_their_witness": sorted(witnessed),
         "known_findings_not_reproduced": sorted(set(open_findings) - set(known_hits)),
     }
+    if ctx["result"]["disagreements"] and "only" not in ctx:
+        nf, ncov = neighbourhood(ctx, open_findings)
+        coverage.update(ncov)
+        # failing inputs of the neighbourhood (shrunk ones first) are reported before the generated ones
+        failures = nf + failures
     return {"coverage": coverage, "oracle_failures": failures, "known": known}
 
 
@@ -194,6 +244,28 @@ def replay(obj):
         print(json.dumps(obj, indent=1)[:3000])
         print("this replay names a broken obligation, not an input; re-run the check itself")
         return 1
+    if str(obj.get("found_by", "")).startswith("neighbourhood"):
+        # the failing input itself is in the replay file: run exactly it through the real formatters
+        vlib.ensure_dirs()
+        build_lsp()
+        ok, log, _ = vlib.build_harness(("verif-hooks",))
+        if not ok:
+            print("harness does not build:", log[-800:])
+            return 1
+        npath = os.path.join(vlib.WORK, "C15.replay.neighbour.json")
+        json.dump([{"cfg": obj["config"], "source": obj["source"]}], open(npath, "w"))
+        out_path = os.path.join(vlib.WORK, "C15.replay.cases.txt")
+        rc, log = vlib.run_harness("c15", obj["seed"], 1, out_path, {"neighbour": npath})
+        if rc != 0:
+            print("harness exited", rc, log[-600:])
+            return 1
+        open_findings = {f["id"]: f for f in vlib.known_findings("C15")}
+        failures = classify(vlib.parse_cases(out_path), run_guards(out_path), open_findings, obj["seed"], "quick", "replay")[0]
+        for f in failures:
+            print("oracle:", f["what"][:400])
+            print("  source:", json.dumps(f["source"])[:600])
+        print("replay:", "still fails" if failures else "passes")
+        return 1 if failures else 0
     mod = check.load_spec("C15")
     r = check.standard_run(mod, obj.get("tier", "quick"), obj["seed"], only=obj["case"])
     bad = 0
